@@ -622,6 +622,14 @@ def r4(ctx, cfg):
             b0, b1 = parts[0], parts[1]
             ok = b0[0] == "byte" and b1[0] == "byte" and [peel(x[1])[2:] for x in (b0, b1)] == [(0,), (1,)] and \
                 all(peel(x[1])[0] == "index" and is_len_code(peel(x[1])[1]) for x in (b0, b1))
+        if not ok:
+            # a single namespace as a nesting of depth one: `to_length_prefixed_nested(&[namespace])` (the nested function is held to
+            # "every segment: encode_length(ns) ++ ns, in order" below)
+            r0 = peel(P.ret(f))
+            if r0[0] == "call" and r0[1] == LP + "to_length_prefixed_nested" and len(r0[2]) == 1:
+                arr = peel(r0[2][0])
+                ok = arr[0] == "agg" and arr[1] in ("array", "vec") and len(arr[2]) == 1 and is_param(arr[2][0][1], "namespace")
+                d = "to_length_prefixed_nested([namespace])" if ok else d
         ctx.ob(R, key, "prefix=encode_length(ns)++ns", ok, "to_length_prefixed builds %s" % d, fn=f, sample=d[:200])
     key = LP + "to_length_prefixed_nested"
     f = ctx.need_fn(R, key)
